@@ -80,6 +80,11 @@ type Exec struct {
 	Trace    bool
 	ext      map[string]interface{} // scratch for intrinsics (per path)
 	unknowns int
+	known    []knownRegion
+	KnownHits []string
+	Witnesses []WitnessRec
+	entry    string
+	pin      map[string]string
 }
 
 func NewExec(p *Program, s *Solver, prefix []int) *Exec {
@@ -311,7 +316,7 @@ func (ex *Exec) CallFunction(caller *frame, fn *ssa.Function, args []Value, env 
 		if fn.Pkg != nil && !ex.P.Interp(fn.Pkg.Pkg.Path()) && fn.Name() == "init" {
 			return nil
 		}
-		panic(Inconclusive{"call to function without body or model: " + name})
+		panic(Inconclusive{"call to function without body or model: " + name + " (called from " + callerChain(caller) + ")"})
 	}
 	if fn.Name() == "init" && fn.Pkg != nil && fn.Synthetic != "" && !ex.P.Interp(fn.Pkg.Pkg.Path()) {
 		return nil // foreign package initialisers are not run
@@ -1036,4 +1041,12 @@ func (ex *Exec) typeAssert(fr *frame, in *ssa.TypeAssert) Value {
 		ex.goPanic(fr.fn.String(), fmt.Sprintf("interface conversion: interface is %s, not %s", d, in.AssertedType))
 	}
 	return res
+}
+
+func callerChain(fr *frame) string {
+	var parts []string
+	for f := fr; f != nil && len(parts) < 6; f = f.caller {
+		parts = append(parts, f.fn.String())
+	}
+	return strings.Join(parts, " <- ")
 }
